@@ -13,7 +13,10 @@ RULE = ("PAGofMAG(n): the PAG (computed by the extracted Coq spec pag_of_mag fro
         "undirected edges on n<=3 (quick) / n<=4 (thorough) nodes; structural clauses: every mark graph MARKS(n) n<=3 over the ten "
         "per-pair kinds (none,->,<-,<->,--,o-o,o->,<-o,-o,o-) and seeded random ones n<=7; all-circle PAGs on connected chordal "
         "skeletons with 5-7 nodes (paths, triangle strips, random chordal graphs; PAG of any collider-free DAG orientation), each "
-        "under 10-100 node labelings (permuted, scattered ints) / insertion orders; distinct by canonical PAG; "
+        "under 10-100 node labelings (permuted, scattered ints) / insertion orders; REPEAT / stale-state stream over a share of "
+        "every stream: warm-up call on a different PAG with the same node and edge counts in the same object, in-place edit "
+        "into the target, judged call on the object / on its copy() / again after the caller edited the returned graph; "
+        "distinct by (canonical PAG, repeat mode, warm-up PAG); "
         "non-trivial = the PAG has at least one circle mark")
 EXHAUSTIVE = {"quick": "PAGofMAG(n) n<=3; MARKS(n) n<=3", "thorough": "PAGofMAG(n) n<=4; MARKS(n) n<=3"}
 TRUSTED = ["PAG.copy / remove_edge / orient_uncertain_edge, ADMG.add_edge taken at face value",
@@ -140,7 +143,7 @@ def chordal_cases(rng, tier):
             yield c
 
 
-def gen_cases(tier, rng):
+def base_cases(tier, rng):
     nmax = 3 if tier == "quick" else 4
     for n in range(1, nmax + 1):
         for m, p in pags_of_mags(n):
@@ -153,6 +156,43 @@ def gen_cases(tier, rng):
         g = gr.random_kinds_graph(rng, n, gr.MARK_KINDS_EXT, p_edge=rng.choice([0.3, 0.5, 0.7]), acyclic=rng.random() < 0.7)
         yield {"kind": "rand", "g": g, "mode": 0}
     yield from chordal_cases(rng, tier)
+
+
+def _sig(g):
+    return (len(g["V"]), sum(len(g[k]) for k in "DBUC"))
+
+
+def gen_cases(tier, rng):
+    """base streams, then the REPEAT / stale-state stream: pag_to_mag is first called on a DIFFERENT PAG g0 with the same
+    node and edge counts built in the same object (result discarded), the object is edited in place into g (all edges
+    removed, g's edges added), and the judged call is made on that object ("same"), on its copy() ("copy"), or a second
+    time after the first returned graph was edited in place by the caller ("result")"""
+    base = list(base_cases(tier, rng))
+    yield from base
+    groups = {}
+    for c in base:
+        groups.setdefault((tuple(sorted(c["g"]["V"])), _sig(c["g"])), []).append(c["g"])
+    for i, c in enumerate(base):
+        g = c["g"]
+        n = len(g["V"])
+        if c["kind"].startswith("pagofmag"):
+            take = n <= 3 or i % 6 == 0
+        elif c["kind"].startswith("marks"):
+            take = n <= 2 or i % 4 == 0
+        elif c["kind"] == "rand":
+            take = i % 4 == 0
+        else:
+            take = n <= 6 and i % 6 == 0
+        if not take:
+            continue
+        others = [h for h in groups[(tuple(sorted(g["V"])), _sig(g))] if gr.canon(h) != gr.canon(g)]
+        seed = rng.randrange(1 << 30)
+        g0 = rng.choice(others) if others else g
+        if not others:
+            p = gr.perturb(g, rng, acyclic=False)
+            prs = [tuple(sorted(e)) for k in "DBU" for e in (p or g)[k]]
+            g0 = p if p is not None and len(prs) == len(set(prs)) and c["kind"] == "rand" else g
+        yield dict(c, kind="rep-" + c["kind"], rep=["same", "same", "copy", "result"][seed % 4], g0=g0)
 
 
 def encode(case):
@@ -172,10 +212,32 @@ def run_impl(case):
     lm = case.get("labmap")
     g = gr.relabel(case["g"], lambda v: lm[v]) if lm else case["g"]
     back = {x: v for v, x in enumerate(lm)} if lm else None
-    P, lab, inv0 = gr.to_pag(g, case)
+    rep = case.get("rep")
+    if rep in ("same", "copy"):
+        g0 = gr.relabel(case["g0"], lambda v: lm[v]) if lm else case["g0"]
+        P, lab, inv0 = gr.to_pag(g0, case)
+        pag_to_mag(P)                                  # warm-up on another PAG in the same object, result discarded
+        for name, layer in P.get_graphs().items():
+            for u, v in list(layer.edges):
+                P.remove_edge(u, v, name)
+        es = [(k, a, b) for k in "DBUC" for a, b in g[k]]
+        for k, a, b in gr.ordered(case, es, "E"):
+            P.add_edge(lab(a), lab(b), gr.LAYER_NAMES[k])
+        if rep == "copy":
+            P = P.copy()
+    else:
+        P, lab, inv0 = gr.to_pag(g, case)
     inv = (lambda x: back[inv0(x)]) if lm else inv0
     before = gr.snapshot(P)
     R = pag_to_mag(P)
+    if rep == "result":
+        # the caller edits the returned graph in place; a second conversion of the same PAG must not see that
+        for name, layer in R.get_graphs().items():
+            for u, v in list(layer.edges)[:1]:
+                R.remove_edge(u, v, name)
+        if R.number_of_nodes():
+            R.remove_node(next(iter(R.nodes)))
+        R = pag_to_mag(P)
     mutated = gr.snapshot(P) != before
     h = gr.from_mixed(R, inv)
     if "X" in h:
@@ -208,11 +270,11 @@ def nontrivial(case, model):
 
 
 def key(case):
-    return gr.canon(case["g"])
+    return (gr.canon(case["g"]), case.get("rep"), gr.canon(case["g0"]) if "g0" in case else None)
 
 
 def shrink(case):
-    if case["mode"] == 1:
+    if case["mode"] == 1 or "rep" in case:
         return
     for h in gr.shrink_graph(case["g"]):
         yield dict(case, g=h)
